@@ -67,6 +67,9 @@ hwloc__nolibxml_import_next_attr(hwloc__xml_import_state_t state, char **namep, 
   *valuep = value = buffer+namelen+2;
   len = 0; escaped = 0;
   while (value[len+escaped] != '\"') {
+    if (value[len+escaped] == '\0')
+      /* end of buffer before the closing quote */
+      return -1;
     if (value[len+escaped] == '&') {
       if (!strncmp(&value[1+len+escaped], "#10;", 4)) {
 	escaped += 4;
@@ -96,8 +99,6 @@ hwloc__nolibxml_import_next_attr(hwloc__xml_import_state_t state, char **namep, 
       value[len] = value[len+escaped];
     }
     len++;
-    if (value[len+escaped] == '\0')
-      return -1;
   }
   value[len] = '\0';
 
